@@ -105,33 +105,42 @@ struct KState<'g> {
 	alive: bool,
 }
 
-fn probe(tc: &Tc<'_>, st: &KState<'_>, after: &str) {
-	let got = ThreadKey::get();
+/// ask for a key the ordinary way, and again from a destructor that runs while the thread unwinds
+/// from an unrelated panic (clean-up code asking for the key): the answers must be the same
+fn ask(ctx: usize) -> (bool, &'static str) {
+	let got = if ctx == 0 { ThreadKey::get() } else { in_unwind(ThreadKey::get) };
 	let some = got.is_some();
 	drop(got);
-	if some == st.alive {
-		tc.v(
-			"C06",
-			if some { "second_key_issued" } else { "key_not_reissued" },
-			format!(
-				"after {after}: ThreadKey::get() returned {} but the model says the thread's key is {}",
-				if some { "Some" } else { "None" },
-				if st.alive { "alive" } else { "not alive" }
-			),
-		);
+	(some, if ctx == 0 { "" } else { " (asked from a destructor during an unrelated unwind)" })
+}
+
+fn probe(tc: &Tc<'_>, st: &KState<'_>, after: &str) {
+	for ctx in 0..2 {
+		let (some, how) = ask(ctx);
+		if some == st.alive {
+			tc.v(
+				"C06",
+				if some { "second_key_issued" } else { "key_not_reissued" },
+				format!(
+					"after {after}: ThreadKey::get(){how} returned {} but the model says the thread's key is {}",
+					if some { "Some" } else { "None" },
+					if st.alive { "alive" } else { "not alive" }
+				),
+			);
+		}
 	}
 }
 
 fn probe_inside(w: &World, what: &str) {
-	let got = ThreadKey::get();
-	let some = got.is_some();
-	drop(got);
-	if some {
-		w.violate(
-			"C06",
-			"second_key_issued",
-			format!("inside {what}: ThreadKey::get() returned Some while the key is stored in the guard / moved or lent to the running scoped call"),
-		);
+	for ctx in 0..2 {
+		let (some, how) = ask(ctx);
+		if some {
+			w.violate(
+				"C06",
+				"second_key_issued",
+				format!("inside {what}: ThreadKey::get(){how} returned Some while the key is stored in the guard / moved or lent to the running scoped call"),
+			);
+		}
 	}
 }
 
@@ -474,6 +483,6 @@ pub fn run(cfg: &RunCfg) -> Report {
 			}
 		}
 	});
-	rep.rule = "pairs of random histories (length 3..16) run in lock-step on two threads over the key-affecting vocabulary {get, drop(key), forget(key), lock/try_lock kept across steps then unlock / drop(guard) / forget(guard), and compound acquire-probe-release through every target kind and API flavour: guard, guard+unlock, try (incl. forced failure by a phantom holder), scoped / scoped_try with lent and with owned key, panicking closures, poisonable results}; after every step and inside every guard / closure the thread probes ThreadKey::get() against its KeyModel; evaluations = histories; non-trivial = history with >= 2 key-affecting steps; distinct = distinct history text".into();
+	rep.rule = "pairs of random histories (length 3..16) run in lock-step on two threads over the key-affecting vocabulary {get, drop(key), forget(key), lock/try_lock kept across steps then unlock / drop(guard) / forget(guard), and compound acquire-probe-release through every target kind and API flavour: guard, guard+unlock, try (incl. forced failure by a phantom holder), scoped / scoped_try with lent and with owned key, panicking closures, poisonable results}; after every step and inside every guard / closure the thread probes ThreadKey::get() against its KeyModel - once the ordinary way and once from a destructor that runs during an unrelated unwind; evaluations = histories; non-trivial = history with >= 2 key-affecting steps; distinct = distinct history text".into();
 	rep
 }
